@@ -144,7 +144,7 @@ def rw_for_by_ref(text):
     return text, count
 
 
-def rw_for_iter(text, nth):
+def rw_for_iter(text, nth, into=False):
     """R5: the nth `for PAT in EXPR { B }` (EXPR a crate-defined iterator) ->
     `let mut verif_it = EXPR; loop { match verif_it.next() { Some(PAT) => { B } None => break } }`  (reference desugaring of `for`)"""
     rx = re.compile(r'\bfor\s+(.+?)\s+in\s+([^{\n]+?)\s*\{')
@@ -162,7 +162,11 @@ def rw_for_iter(text, nth):
         elif text[j] == '}':
             d -= 1
         j += 1
-    head = 'let mut verif_it = %s; loop { match verif_it.next() { Some(%s) => {' % (m.group(2).strip(), m.group(1))
+    # `into`: EXPR is an IntoIterator that is not an iterator itself: the reference desugaring calls IntoIterator::into_iter on it
+    expr = m.group(2).strip()
+    if into:
+        expr = '(%s).into_iter()' % expr
+    head = 'let mut verif_it = %s; loop { match verif_it.next() { Some(%s) => {' % (expr, m.group(1))
     return text[:m.start()] + head + text[m.end():j] + ' None => break } }' + text[j:], 1
 
 
@@ -250,6 +254,7 @@ REWRITES_DOC = {
     'R5': '`for p in E { B }` over a crate-defined iterator -> `let mut verif_it = E; loop { match verif_it.next() { Some(p) => { B } None => break } }`: the reference desugaring of `for` (IntoIterator::into_iter is the identity on iterators); for `E = X.by_ref()` the temporary is elided (`Iterator::by_ref` = `self`, `<&mut I as Iterator>::next` = `(**self).next()`, std source)',
     'R11': 'closure with one tuple-pattern parameter `|(a, b)| E` -> `|verif_pN| { let (a, b) = verif_pN; E }` (Verus accepts only variables as closure parameters; closure parameters are irrefutable patterns bound exactly like let)',
     'R12': 'std adapter calls `X.iter().map(` (X: Vec) / `(a..b).map(` renamed to the model adapters `X.verif_iter_map(` / `(a..b).verif_map(` (specs/adapters_model.vrs: verified model iterators that yield f(x) for every x in order with exact length; TRUSTED: core::iter::Map over slice::Iter / Range behaves like them)',
+    'R13': 'item taken from the arm of a macro_rules! definition, the metavariables replaced by the arguments of one invocation that exists in the file (the text the compiler expands for that invocation); the other invocations differ only in the item type',
     'R8': 'struct fields widened to pub inside the unit',
     'R1': 'doc comments / #[inline] / derives dropped',
 }
@@ -412,6 +417,49 @@ def count_code(b, needle, lo):
         n += 1
 
 
+def expand_macro(text, spec, rel_file):
+    """R13: the body of the (single) arm of `macro_rules! NAME`, with the metavariables replaced by the arguments of an invocation
+    `NAME!(..)` that exists in the same file; everything before the body is blanked so that line numbers stay those of the file"""
+    m = re.match(r'\s*([A-Za-z_][A-Za-z0-9_]*)\((.*)\)\s*$', spec)
+    if not m:
+        raise Undecided('bad macro source: %s' % spec)
+    name = m.group(1)
+    binds = []
+    for part in m.group(2).split(','):
+        k, v = part.split('=', 1)
+        binds.append((k.strip(), v.strip()))
+    mask = code_mask(text)
+    d = re.search(r'macro_rules!\s*' + re.escape(name) + r'\s*\{', text)
+    if not d or not mask[d.start()]:
+        raise Undecided('macro_rules! %s not found in %s' % (name, rel_file))
+    arm = re.compile(r'\(([^)]*)\)\s*=>\s*\{').search(text, d.end())
+    if not arm:
+        raise Undecided('macro %s: no arm' % name)
+    params = [q.strip().split(':')[0].strip() for q in arm.group(1).split(',') if q.strip()]
+    if params != [k for k, v in binds]:
+        raise Undecided('macro %s: parameters %s do not match the template (%s)' % (name, params, [k for k, v in binds]))
+    # the body: up to the brace matching the arm's opening brace
+    depth, i = 0, arm.end() - 1
+    while i < len(text):
+        if mask[i]:
+            if text[i] == '{':
+                depth += 1
+            elif text[i] == '}':
+                depth -= 1
+                if depth == 0:
+                    break
+        i += 1
+    body = text[arm.end():i]
+    # an invocation with exactly these arguments must exist
+    inv = re.compile(re.escape(name) + r'!\s*\(\s*' + r'\s*,\s*'.join(re.escape(v) for k, v in binds) + r'\s*\)\s*;')
+    if not inv.search(text):
+        raise Undecided('macro %s is not invoked with (%s) in %s' % (name, ', '.join(v for k, v in binds), rel_file))
+    for k, v in binds:
+        body = re.sub(re.escape(k) + r'(?![A-Za-z0-9_])', v, body)
+    blank = ''.join(ch if ch == '\n' else ' ' for ch in text[:arm.end()])
+    return blank + body + '\n'
+
+
 def weave_fn(src, container, name, nth, opts, subs, mode, sig_only=False):
     """returns (woven_text, record)"""
     s, o, c = src.find_fn(container, name, nth)
@@ -420,6 +468,8 @@ def weave_fn(src, container, name, nth, opts, subs, mode, sig_only=False):
     # anchor-lock keys carry the source file: the same `impl .. for Iter<'a>::next` exists in several files
     akey = '%s:%s::%s' % (os.path.relpath(src.path, getattr(src, 'root', os.path.dirname(src.path))), container, name)
     rewrites = {}
+    if getattr(src, 'macro', None):
+        rewrites['R13'] = 1
     text, k = rw_get_unchecked(raw)
     if k:
         rewrites['R2'] = k
@@ -439,8 +489,8 @@ def weave_fn(src, container, name, nth, opts, subs, mode, sig_only=False):
             raise Undecided('anchor lost: no `.iter().map(` / `(a..b).map(` in %s::%s' % (container, name))
         rewrites['R12'] = k
     for kind, arg, lines in subs:
-        if kind == 'desugar_for':
-            text, k = rw_for_iter(text, int(arg.strip() or '1'))
+        if kind in ('desugar_for', 'desugar_for_into'):
+            text, k = rw_for_iter(text, int(arg.strip() or '1'), into=(kind == 'desugar_for_into'))
             if not k:
                 raise Undecided('anchor lost: no `for` loop #%s in %s::%s' % (arg, container, name))
             rewrites['R5'] = rewrites.get('R5', 0) + k
@@ -517,7 +567,7 @@ def weave_fn(src, container, name, nth, opts, subs, mode, sig_only=False):
     # collect sub-directives
     for kind, arg, lines in subs:
         body_text = '\n'.join(lines)
-        if kind in ('inst', 'rename_generic', 'desugar_by_ref', 'desugar_for', 'desugar_closure_patterns', 'model_adapters'):
+        if kind in ('inst', 'rename_generic', 'desugar_by_ref', 'desugar_for', 'desugar_for_into', 'desugar_closure_patterns', 'model_adapters'):
             continue
         if kind == 'attr':
             if not sig_only:
@@ -913,10 +963,20 @@ class Unit:
 
     def source(self, rel):
         if rel not in self.sources:
-            p = os.path.join(self.repo, rel)
+            macro = None
+            if ' !' in rel:
+                # `FILE !NAME($a=X,$b=Y)`: rewrite R13, one arm of a macro_rules! definition instantiated at an invocation that exists
+                rel_file, macro = rel.split(' !', 1)
+            else:
+                rel_file = rel
+            p = os.path.join(self.repo, rel_file)
             if not os.path.exists(p):
-                raise Undecided('source file missing: %s' % rel)
-            s = Source(p)
+                raise Undecided('source file missing: %s' % rel_file)
+            if macro:
+                s = Source(p, text=expand_macro(open(p).read(), macro, rel_file))
+                s.macro = macro
+            else:
+                s = Source(p)
             s.root = self.repo
             self.sources[rel] = s
         return self.sources[rel]
